@@ -3,6 +3,7 @@ mod from_mds;
 mod from_srt;
 
 use crate::decoder::{DF, Plane};
+use chrono::Utc;
 
 pub trait UpdateFromDownlink<T> {
     fn update_from_downlink(&mut self, dl: &T);
@@ -10,6 +11,8 @@ pub trait UpdateFromDownlink<T> {
 
 impl UpdateFromDownlink<DF> for Plane {
     fn update_from_downlink(&mut self, dl: &DF) {
+        // every accepted frame restarts the last-contact age, as Plane::update() does
+        self.timestamp = Utc::now();
         match dl {
             DF::SRT(v) => self.update_from_downlink(v),
             DF::EXT(v) => self.update_from_downlink(v),
